@@ -1,10 +1,11 @@
 #!/bin/sh
-# tools/seed_sweep.sh : apply every kept seeded change in turn and run the check(s) of its property (quick tier).
-# Output: one line per seed: DETECTED / MISSED / NOAPPLY.   (FAST=1: skip the Lean phase)
+# tools/seed_sweep.sh : run the quick check of its property against every kept seeded change in turn (each in a scratch
+# worktree of /repo, see tools/seeded.sh).  Output: one line per seed: DETECTED / MISSED / NOAPPLY.
+# FAST=1 skips the Lean phase.
 cd /verif
 for d in seeded/*/; do
   id=$(basename $d); prop=${id%%-*}
   if ! git -C /repo apply --check "/verif/$d/patch.diff" 2>/dev/null; then echo "$id NOAPPLY"; continue; fi
-  res=$(tools/seeded.sh "$d" "$prop" 2>&1 | grep -c "exit=1")
+  res=$(timeout 1500 tools/seeded.sh "$d" "$prop" 2>&1 | grep -c "exit=1")
   if [ "$res" = "1" ]; then echo "$id DETECTED by $prop"; else echo "$id MISSED by $prop"; fi
 done
